@@ -27,6 +27,7 @@ pub fn run(ctx: &RunCtx) -> i32 {
         "C12" => crate::e3::c12::run(ctx),
         "C14" => c14::run(ctx),
         "C16" => c16::run(ctx),
+        "C17" => crate::e3::c17::run(ctx),
         "C18" => c18::run(ctx),
         "C19" => c19::run(ctx),
         other => {
